@@ -3,8 +3,11 @@ package seqpart
 import (
 	"context"
 	"fmt"
+	"os"
 	"runtime"
+	"runtime/debug"
 	"sort"
+	"strconv"
 	"sync"
 	"sync/atomic"
 	"time"
@@ -297,6 +300,10 @@ func (c *checker) runCase(p *program, injs []inj, order int64) {
 }
 
 func Run(r *rep.Report, tier string) {
+	// The live heap is tiny and every case allocates: with the default pacer
+	// the collector runs continuously. Collect only when 1GiB has accumulated.
+	defer debug.SetGCPercent(debug.SetGCPercent(-1))
+	defer debug.SetMemoryLimit(debug.SetMemoryLimit(1 << 30))
 	b := boundsFor(tier)
 	budget := 50 * time.Second
 	if tier == "thorough" {
@@ -306,7 +313,10 @@ func Run(r *rep.Report, tier string) {
 
 	c := &checker{best: map[string]*finding{}, sigCount: map[string]int{}, notes: map[string]int{},
 		parked: make(chan struct{}, maxParked)}
-	workers := runtime.NumCPU()
+	workers := 2 * runtime.NumCPU() // cases are latency bound (goroutine hand-offs), not CPU bound
+	if n, err := strconv.Atoi(os.Getenv("VERIF_C02_WORKERS")); err == nil && n > 0 {
+		workers = n
+	}
 	queue := make(chan work, 1024)
 	var order atomic.Int64
 	var timedOut atomic.Bool
